@@ -411,7 +411,7 @@ func TestC20Tunnel(t *testing.T) {
 		"{client sends text|binary of 0,1,125,126,65535,65536,102400 B, same with backend echo, backend sends unsolicited, ping from either side, sync}, queued without waiting (both directions in flight together), ended by a drawn side with a close frame (drawn code/reason) or an abrupt TCP close, preceded by a burst of 0-3 messages from the closing side; "+
 		"oracle: each side received exactly the (type, payload) sequence the other side's writer sent, pongs match pings, a close frame arrives with its code and reason, and after one side closes the other side's read ends within a 5 s no-progress watchdog; "+
 		"non-trivial = data in both directions and a non-empty plugin chain")
-	sub.NontrivialFloor(0.50)
+	sub.NontrivialFloor(0.40)
 	sub.Floor("close-abrupt-client", 0.10)
 	sub.Floor("close-abrupt-backend", 0.10)
 	sub.Floor("size>=64KiB", 0.30)
